@@ -154,7 +154,8 @@ static std::string evalCase(const std::string& stream, const std::string& line) 
 }
 
 // ---------------------------------------------------------------- structure walker over a *valid* encoding (offsets of fields)
-struct Fields { std::vector<size_t> order, type, count, srid; };
+struct Arc { size_t off; uint32_t n; size_t cs; };
+struct Fields { std::vector<size_t> order, type, count, srid; std::vector<Arc> arcs; };
 struct Walker {
     const std::vector<unsigned char>& b; Fields& f; bool ok = true;
     Walker(const std::vector<unsigned char>& bb, Fields& ff) : b(bb), f(ff) {}
@@ -171,7 +172,7 @@ struct Walker {
         size_t cs = 16 + (z ? 8 : 0) + (m ? 8 : 0);
         switch (code) {
         case 1: return p + cs;
-        case 2: case 8: { uint32_t n = u32(p, le); f.count.push_back(p); return p + 4 + (size_t) n * cs; }
+        case 2: case 8: { uint32_t n = u32(p, le); f.count.push_back(p); if (code == 8 && n >= 3 && p + 4 + (size_t) n * cs <= b.size()) f.arcs.push_back({p + 4, n, cs}); return p + 4 + (size_t) n * cs; }
         case 3: { uint32_t n = u32(p, le); f.count.push_back(p); p += 4;
                   for (uint32_t i = 0; i < n && ok; i++) { uint32_t k = u32(p, le); f.count.push_back(p); p += 4 + (size_t) k * cs; } return p; }
         case 4: case 5: case 6: case 7: case 9: case 10: case 11: case 12: {
@@ -189,7 +190,16 @@ static void put32(std::vector<unsigned char>& b, size_t p, uint32_t v, bool le) 
 // one mutation of a valid encoding; returns a label
 static std::string mutate(Rng& r, std::vector<unsigned char>& b, bool le) {
     Fields f; Walker w(b, f); w.geom(0);
-    switch (r.below(12)) {
+    switch (r.below(14)) {
+    case 12: case 13: if (!f.arcs.empty()) {   // X/Y of a circular-string point: values on which the arc-envelope arithmetic of the constructor may throw
+                const Arc& a = f.arcs[r.below(f.arcs.size())]; size_t i = r.below(a.n), xy = r.below(2); size_t q = a.off + i * a.cs + 8 * xy; double v;
+                switch (r.below(9)) { case 0: v = INFINITY; break; case 1: v = -INFINITY; break; case 2: v = std::numeric_limits<double>::quiet_NaN(); break;
+                    case 3: v = std::ldexp(1.0 + r.unit(), r.range(500, 1023)) * (r.chance(50) ? 1 : -1); break; case 4: v = std::ldexp(1.0 + r.unit(), -r.range(500, 1070)); break;
+                    case 5: v = 0.0; break; case 6: v = std::numeric_limits<double>::max(); break;
+                    default: { size_t j = r.below(a.n); uint64_t u = 0; for (int k = 0; k < 8; k++) u |= (uint64_t) b[a.off + j * a.cs + 8 * xy + (le ? k : 7 - k)] << (8 * k); v = frombits(u);
+                               size_t q2 = a.off + i * a.cs + 8 * (1 - xy), s2 = a.off + j * a.cs + 8 * (1 - xy); if (r.chance(70)) for (int k = 0; k < 8; k++) b[q2 + k] = b[s2 + k]; } }
+                uint64_t u = bits(v); for (int k = 0; k < 8; k++) b[q + (le ? k : 7 - k)] = (unsigned char)(u >> (8 * k));
+                return "mut_arc_xy"; } break;
     case 0: if (!f.type.empty()) { size_t p = f.type[r.below(f.type.size())]; uint32_t t = w.u32(p, le);
                 uint32_t nc = (uint32_t) r.range(0, 14); uint32_t hi = t & 0xffff0000u; uint32_t rng = (t & 0xffff) / 1000;
                 put32(b, p, hi | (rng * 1000 + nc), le); return "mut_type_code"; } break;
